@@ -142,9 +142,9 @@ func thresholdOps(d *rj.Value) []r69.Op {
 // stringSizePhase: depth 2 over the string documents of every swept length.
 func stringSizePhase(p *seqProp, tier string) *seqProp {
 	d := *p
-	sizes := sweepSizes(130, 256, 1024, 4096)
+	sizes := sweepSizes(130, 200, 256, 500, 1000, 1024, 4096, 10000)
 	if tier == "thorough" {
-		sizes = sweepSizes(300, 512, 1024, 2048, 4096, 65536)
+		sizes = sweepSizes(300, 500, 512, 1000, 1024, 2048, 4096, 10000, 65536)
 	}
 	d.Docs = nil
 	for _, n := range sizes {
@@ -182,9 +182,9 @@ func imax(a, b int) int {
 
 // sizePhases: the sweeps a sequence check carries (quick / thorough sizes).
 func sizePhases(p *seqProp, tier string, widthDepth int, allOpts bool) []*seqProp {
-	sizes := sweepSizes(20, 32, 64, 128, 256)
+	sizes := sweepSizes(20, 32, 37, 64, 100, 128, 256)
 	if tier == "thorough" {
-		sizes = sweepSizes(70, 128, 256, 512, 1024)
+		sizes = sweepSizes(70, 100, 128, 200, 256, 500, 512, 1000, 1024)
 	}
 	return []*seqProp{stringSizePhase(p, tier), widthSizePhase(p, sizes, widthDepth, allOpts), productPhase(p, tier), scriptPhase(p, tier)}
 }
@@ -332,9 +332,9 @@ func resolve(d *rj.Value, ptr string) *rj.Value {
 // the member touched last, touched first, and on an untouched one.
 func scriptPhase(p *seqProp, tier string) *seqProp {
 	d := *p
-	counts := sweepSizes(70, 128, 256)
+	counts := sweepSizes(70, 100, 128, 256)
 	if tier == "thorough" {
-		counts = sweepSizes(140, 256, 512, 1024)
+		counts = sweepSizes(140, 200, 256, 500, 512, 1000, 1024)
 	}
 	d.Docs, d.Alpha, d.Depth = nil, nil, 0
 	d.Opts = p.Opts[:1]
@@ -414,6 +414,37 @@ func lengthScripts(counts []int) []seqScript {
 			st3 = append(st3, r69.Op{Kind: "replace", Path: "/k", Value: rj.NewNum(fmt.Sprint(i)), HasValue: true})
 		}
 		emit(small, st, probes(fmt.Sprintf("/c%04d/v/0", imax(n-1, 0)), "/c0000", "/src/v/1"))
+		// MIXED patterns: add/remove on two names in turn; a move ring that returns to its start; grow - shrink -
+		// grow of the array; copies interleaved with removes of the previous copy
+		var mx1, mx2, mx3, mx4 []r69.Op
+		ring := []string{"/src", "/r1", "/r2", "/o/r3"}
+		for i := 0; i < n; i++ {
+			switch i % 4 {
+			case 0:
+				mx1 = append(mx1, r69.Op{Kind: "add", Path: "/o/p", Value: rj.NewNum(fmt.Sprint(i)), HasValue: true})
+			case 1:
+				mx1 = append(mx1, r69.Op{Kind: "add", Path: "/o/q", Value: rj.NewNum(fmt.Sprint(i)), HasValue: true})
+			case 2:
+				mx1 = append(mx1, r69.Op{Kind: "remove", Path: "/o/p"})
+			case 3:
+				mx1 = append(mx1, r69.Op{Kind: "remove", Path: "/o/q"})
+			}
+			mx2 = append(mx2, r69.Op{Kind: "move", From: ring[i%4], Path: ring[(i+1)%4]})
+			if (i/8)%2 == 0 {
+				mx3 = append(mx3, r69.Op{Kind: "add", Path: "/a/-", Value: rj.NewNum(fmt.Sprint(i)), HasValue: true})
+			} else {
+				mx3 = append(mx3, r69.Op{Kind: "remove", Path: "/a/0"})
+			}
+			if i%2 == 0 {
+				mx4 = append(mx4, r69.Op{Kind: "copy", From: "/src", Path: fmt.Sprintf("/c%04d", i)})
+			} else {
+				mx4 = append(mx4, r69.Op{Kind: "remove", Path: fmt.Sprintf("/c%04d", i-1)})
+			}
+		}
+		emit(small, mx1, probes("/o/p", "/o/q", "/o/x"))
+		emit(small, mx2, probes(ring[n%4], ring[(n+1)%4], "/src/v/0"))
+		emit(small, mx3, probes("/a/0", "/a/-1", "/a/1"))
+		emit(small, mx4, probes(fmt.Sprintf("/c%04d", imax(n-1, 0)&^1), fmt.Sprintf("/c%04d", imax(n-2, 0)), "/src"))
 		emit(small, st2, probes(prev+"/v", "/src", "/h0000"))
 		emit(small, st3, probes("/k", "/o/x", "/zz"))
 	}
